@@ -316,6 +316,67 @@ def bounds(vars_):
   return cs
 
 
+def pairs_scenario(topology):
+  """find_bn_fusing_layer_pair on stub graphs (qgraph's graph construction replaced by the graph itself, networkx by the
+  stub contract of C18): a QConv2D / QDepthwiseConv2D is fused with a batch normalisation exactly when that batch
+  normalisation is its ONLY consumer; nothing else is ever paired.
+  topology: 'chain' conv->bn->dense | 'residual' conv->bn and conv->add (two consumers) | 'bn_second' conv->act, conv->bn |
+            'dense_bn' dense->bn (not fusable) | 'conv_act' conv->act->bn | 'two_pairs' conv->bn->dwconv->bn"""
+  def scenario(ip):
+    s = Scen()
+    from . import c18
+    gm = ip.load_source("c18_graph_stub", c18.GRAPH_STUB)
+    g = ip.call(gm.env.vars["DiGraph"], [], {})
+    add_node, add_edge = ip.getattr(g, "add_node"), ip.getattr(g, "add_edge")
+    layers = {}
+
+    def node(i, cls, name):
+      lay = None if cls is None else Obj(ExtClass(cls), {"name": name}, label=name)
+      layers[i] = lay
+      ip.call(add_node, [i], {"layer": [lay], "type": [cls], "out_quantizer": None})
+    edge = lambda u, v: ip.call(add_edge, [u, v], {"shape": None, "tensor": "t%s_%s" % (u, v), "quantizer": None})
+    node(-1, None, None)
+    if topology == "chain":
+      node(0, "QConv2D", "c1"); node(1, "QBatchNormalization", "b1"); node(2, "QDense", "d1")
+      es, want = [(-1, 0), (0, 1), (1, 2), (2, -2)], {"c1": "b1"}
+    elif topology == "residual":
+      node(0, "QConv2D", "c1"); node(1, "QBatchNormalization", "b1"); node(2, "Add", "add")
+      es, want = [(-1, 0), (0, 1), (0, 2), (1, 2), (2, -2)], {}
+    elif topology == "bn_second":
+      node(0, "QDepthwiseConv2D", "c1"); node(1, "QActivation", "a1"); node(2, "QBatchNormalization", "b1"); node(3, "Add", "add")
+      es, want = [(-1, 0), (0, 1), (0, 2), (1, 3), (2, 3), (3, -2)], {}
+    elif topology == "dense_bn":
+      node(0, "QDense", "d1"); node(1, "QBatchNormalization", "b1")
+      es, want = [(-1, 0), (0, 1), (1, -2)], {}
+    elif topology == "conv_act":
+      node(0, "QConv2D", "c1"); node(1, "QActivation", "a1"); node(2, "QBatchNormalization", "b1")
+      es, want = [(-1, 0), (0, 1), (1, 2), (2, -2)], {}
+    else:
+      node(0, "QConv2D", "c1"); node(1, "QBatchNormalization", "b1"); node(2, "QDepthwiseConv2D", "c2")
+      node(3, "QBatchNormalization", "b2")
+      es, want = [(-1, 0), (0, 1), (1, 2), (2, 3), (3, -2)], {"c1": "b1", "c2": "b2"}
+    node(-2, None, None)
+    for u, v in es:
+      edge(u, v)
+    ip.overrides["qkeras.utils::clone_model"] = lambda ip_, fv, a, k: a[0]
+    ip.overrides["qkeras.qtools.qgraph::GenerateGraphFromModel"] = lambda ip_, fv, a, k: (g, None)
+    for fn in ("GraphAddSingleSourceSingleSink", "GraphRemoveNodeWithNodeType", "GraphPropagateActivationsToEdges"):
+      ip.overrides["qkeras.qtools.qgraph::" + fn] = lambda ip_, fv, a, k: None
+    model = Obj(ExtClass("Model"), {"layers": [l for l in layers.values() if l is not None]})
+    r = run_call(ip, ip.find("qkeras/utils.py::find_bn_fusing_layer_pair"), [model])
+    s.claim("no_raise", r[0] == "return")
+    if r[0] != "return":
+      s.info["raised"] = str(r[1])
+      return s
+    pairs, skip = r[1]
+    if dict(pairs) != want:
+      s.info["raised"] = "pairs %r, expected %r" % (dict(pairs), want)
+    s.claim("pairs_exactly_sole_consumer_bn", dict(pairs) == want)
+    s.claim("skipped_bn_are_the_paired_ones", set(skip) == set(want.values()))
+    return s
+  return scenario
+
+
 def cases(tier):
   out = []
   for kind in ("fixed", "binary", "po2", "relu_po2", "auto_po2"):
@@ -328,6 +389,10 @@ def cases(tier):
   for bk in ("q", "plain"):
     out.append(Case(PROP, MS, "fused_conv_bn_bias-%s" % bk, fuse_scenario(bk), bounds=bounds, replay_kind=None,
                     assumptions=ASSUME, term_mode=True))
+  for topo in ("chain", "residual", "bn_second", "dense_bn", "conv_act", "two_pairs"):
+    out.append(Case(PROP, "qkeras/utils.py::find_bn_fusing_layer_pair", topo, pairs_scenario(topo), bounds=bounds,
+                    replay_kind=None, assumptions=ASSUME + ["qgraph.GenerateGraphFromModel and the graph clean-up passes "
+                                                            "replaced by the resulting graph (stub contract of networkx)"]))
   for sc in (True, False):
     for ce in (True, False):
       for ub in (True, False):
